@@ -176,7 +176,14 @@ func runS2C(run *vk.Run, c wcase) {
 	}
 	emitBurst(ss.Emit, c, run.Seed())
 	ss.Emit("fence")
-	_, _, err = peer.WaitPacket(0, 60*time.Second, isFence)
+	// wait for the fence — or for a framing error on the wire, after which no fence can be recognised
+	deadline := time.Now().Add(60 * time.Second)
+	for {
+		_, _, err = peer.WaitPacket(0, 250*time.Millisecond, isFence)
+		if err == nil || peer.Err() != nil || time.Now().After(deadline) || peer.C.IsClosed() {
+			break
+		}
+	}
 	checkWire(run, c, peer.Packets(), peer.Err(), err == nil)
 	if err != nil && peer.Err() == nil {
 		run.Inconclusive("s2c " + c.id() + ": fence not seen: " + err.Error())
@@ -232,7 +239,14 @@ func runC2S(run *vk.Run, c wcase) {
 	}
 	emitBurst(sock.Emit, c, run.Seed())
 	sock.Emit("fence")
-	_, _, werr := sess.WaitPacket(0, 60*time.Second, isFence)
+	var werr error
+	deadline := time.Now().Add(60 * time.Second)
+	for {
+		_, _, werr = sess.WaitPacket(0, 250*time.Millisecond, isFence)
+		if _, perr := sess.Packets(); werr == nil || perr != nil || time.Now().After(deadline) {
+			break
+		}
+	}
 	ps, perr := sess.Packets()
 	checkWire(run, c, ps, perr, werr == nil)
 	if werr != nil && perr == nil {
@@ -355,7 +369,7 @@ outer:
 		for _, tr := range []string{"polling", "websocket", "upgraded"} {
 			for _, e := range emitters {
 				for _, b := range bursts {
-					if run.Violations() > 8 {
+					if run.Violations() > 4 {
 						break outer // circuit breaker: on a broken tree every further case costs its full time-out
 					}
 					t0 := time.Now()
